@@ -377,13 +377,12 @@ impl<T> DataReaderEntity<T> {
                 .find(|x| x.instance_handle == sample.instance_handle)
             {
                 let instance_writer = InstanceHandle::new(sample.writer_guid);
-                let Some(sample_owner) = self
+                // An owner that is no longer matched (deleted writer, lost participant)
+                // does not keep the instance: any matched writer may take it over
+                let sample_owner = self
                     .matched_publication_list
                     .iter()
-                    .find(|x| x.key().value == instance_owner.owner_handle.as_ref())
-                else {
-                    return Ok(AddChangeResult::NotAdded);
-                };
+                    .find(|x| x.key().value == instance_owner.owner_handle.as_ref());
                 let Some(sample_writer) = self
                     .matched_publication_list
                     .iter()
@@ -391,11 +390,13 @@ impl<T> DataReaderEntity<T> {
                 else {
                     return Ok(AddChangeResult::NotAdded);
                 };
-                if instance_owner.owner_handle != sample.writer_guid
-                    && sample_writer.ownership_strength().value
-                        <= sample_owner.ownership_strength().value
-                {
-                    return Ok(AddChangeResult::NotAdded);
+                if let Some(sample_owner) = sample_owner {
+                    if instance_owner.owner_handle != sample.writer_guid
+                        && sample_writer.ownership_strength().value
+                            <= sample_owner.ownership_strength().value
+                    {
+                        return Ok(AddChangeResult::NotAdded);
+                    }
                 }
             }
 
